@@ -6,7 +6,7 @@ LEAN_MODULE = "IsobarV.Props.C06"
 THEOREMS = ["IsobarV.C06." + t for t in (
     "count_bounded", "count_limit_stops", "pullLoop_count_bounded", "exhausted_stays", "finished_iff", "removal_rule",
     "stop_rule", "never_stops_when_off", "schedule_refused_unchanged", "len_le_max_op", "named_replace_no_growth",
-    "removed_emits_nothing", "unscheduled_is_gone", "clear_removes_all", "muted_emits_nothing")]
+    "removed_emits_nothing", "unscheduled_is_gone", "clear_removes_all", "muted_emits_nothing", "len_le_max")]
 RULE = ("random histories over finite and infinite streams with event counts, gates > 1 (notes outlive the stream), keep-when-done "
         "tracks, max_tracks changes, named re-schedules, unschedule/clear/mute/unmute, stop-when-done on and off; real Timeline "
         "vs Lean model on len(tracks)/track identities after every operation, the tick at which tick() raises StopIteration and all "
